@@ -410,8 +410,19 @@ def r6_bit_helpers_fresh(ck, cx, rule='R6'):
                 continue
             n += 1
             # the returned object: a local bound to a list display / list() / comprehension / concatenation, never (an element of) a module global
-            shared = any(isinstance(x, ast.Name) and x.id in globals_ for x in ([r] if isinstance(r, ast.Name) else
-                         ([r.value] if isinstance(r, ast.Subscript) else [])))
+            def fresh_outer(x):
+                # forms whose value is a new list whatever their parts are
+                if isinstance(x, (ast.List, ast.ListComp)):
+                    return True
+                if isinstance(x, ast.Call) and isinstance(x.func, ast.Name) and x.func.id in ('list', 'sorted'):
+                    return True
+                if isinstance(x, ast.BinOp) and isinstance(x.op, (ast.Add, ast.Mult)):
+                    return True
+                if isinstance(x, ast.Subscript) and isinstance(x.slice, ast.Slice):
+                    return True         # a slice of a list is a copy
+                return False
+            shared = (not fresh_outer(r)) and any(isinstance(x, ast.Name) and x.id in globals_ and x.id not in ('IS_PYTHON3',) and not
+                                                 (cx.idx.lookup(fn.mod, x.id) or ('',))[0] in ('func', 'class', 'extern', 'module') for x in ast.walk(r))
             ck.ob(rule, fn.qn, 'the returned list is built by this call', not shared, detail='returns-shared-list %s' % U(r)[:40], loc=cx.floc(fn),
                   message='unpack_bitstring can return `%s`, an object owned by module state: all messages decoded from that byte share one bit list' % U(r)[:60])
     ck.floor(rule, n, 3, 'bit helper obligations')
